@@ -199,6 +199,43 @@ def run(ctx):
                                   bad_msg=f"the raw body field is not the HTTP body's bytes as they are (value comes from {e[:120]}): e.g. an empty body that is replaced by "
                                           f"`{{}}` for the JSON reader must not reach a #[ruma_api(raw_body)] field")
         ctx.floor("raw-body readers examined", n_raw, 4)
+        # the status a response is written with is one the reading side decodes as a response (and not as an error)
+        HTTP = {"OK": 200, "CREATED": 201, "ACCEPTED": 202, "NO_CONTENT": 204, "MOVED_PERMANENTLY": 301, "FOUND": 302, "SEE_OTHER": 303, "NOT_MODIFIED": 304,
+                "TEMPORARY_REDIRECT": 307, "PERMANENT_REDIRECT": 308}
+        n_status = 0
+        for rty, d in sorted(resps.items()):
+            if "Outgoing" not in d or "Incoming" not in d:
+                continue
+            bo, bi_ = d["Outgoing"]["body"], d["Incoming"]["body"]
+            do_, di_ = PC.roots(bo), PC.roots(bi_)
+            written = []
+            for _, c in M.calls(bo):
+                if M.callee_name(c) == "http::response::Builder::status" and len(c["args"]) == 2:
+                    e = PC.expr(bo, do_, c["args"][1])
+                    nm_ = str(e[1]).rsplit("::", 1)[-1] if e and e[0] in ("const", "const?") and e[1] is not None else None
+                    written.append(HTTP.get(nm_, e[1] if isinstance(e[1], int) else None))
+            if not written:
+                continue
+            accept = None
+            for b_ in bi_["blocks"]:
+                for st in b_["s"]:
+                    if st[0] == "=" and st[2][0] == "bin" and st[2][1] in ("Lt", "Le", "Ge", "Gt") and "StatusCode::as_u16" in _json.dumps(PC.expr(bi_, di_, st[2][2])):
+                        lim = PC.expr(bi_, di_, st[2][3])
+                        if lim[0] == "const" and isinstance(lim[1], int):
+                            # `status < N` guards the decoding, `status >= N` guards the error return: both accept exactly the codes below N
+                            strict = st[2][1] in ("Lt", "Ge")
+                            accept = (lambda code, n_=lim[1], strict_=strict: code < n_ if strict_ else code <= n_, f"status {'<' if strict else '<='} {lim[1]}")
+            if accept is None and any(M.callee_name(c).endswith("StatusCode::is_success") for _, c in M.calls(bi_)):
+                accept = (lambda code: 200 <= code < 300, "status.is_success()")
+            for code in written:
+                n_status += 1
+                if code is None or accept is None:
+                    ctx.unrecognised("C16.siblings", f"C16.siblings:status:{rty}", w.where(d["Incoming"]), f"written status {code}, acceptance test {accept[1] if accept else None}")
+                else:
+                    ctx.check(accept[0](code), "C16.siblings", f"C16.siblings:status:{rty}", w.where(d["Incoming"]),
+                              bad_msg=f"the response is written with status {code} but the reading side decodes a response only when {accept[1]}: the endpoint's own "
+                                      f"success status is turned into an error")
+        ctx.floor("response status pairs examined", n_status, 200)
 
     # ---- XMatrix -----------------------------------------------------------------------------------------------------------
     ctx.rule("C16.xmatrix", "XMatrix: Display writes the parameters destination, key, origin, sig and the parser reads the same names; values are quoted through quote_ascii_string_if_required")
